@@ -334,6 +334,62 @@ theorem C18_ident_norm_no_underscore (s : List Char) : '_' ∉ identNorm s := by
   · exact absurd h (by decide)
   · rename_i hc; exact hc h
 
+/-! ### the column by which a loud comment is re-indented -/
+
+theorem substNewlines_cons (k : NL) (c : Char) (r : List Char) :
+    substNewlines k (c :: r) = if c = LF then k.chars ++ substNewlines k r else c :: substNewlines k r := rfl
+
+theorem dropBom_subst (k : NL) (s : List Char) : dropBom (substNewlines k s) = substNewlines k (dropBom s) := by
+  cases s with
+  | nil => rfl
+  | cons c r =>
+    have hlb : ¬ LF = Char.ofNat 0xFEFF := by decide
+    by_cases hb : c = Char.ofNat 0xFEFF
+    · subst hb
+      have : ¬ Char.ofNat 0xFEFF = LF := fun e => hlb e.symm
+      rw [substNewlines_cons]
+      simp [dropBom, this]
+    · by_cases hl : c = LF
+      · subst hl
+        rw [substNewlines_cons]
+        simp only [↓reduceIte, dropBom, hb]
+        rw [substNewlines_cons]
+        simp only [↓reduceIte]
+        cases k <;> simp [dropBom, NL.chars] <;> decide
+      · rw [substNewlines_cons]
+        simp only [hl, ↓reduceIte, dropBom, hb]
+        rw [substNewlines_cons]
+        simp [hl]
+
+theorem not_mem_dropBom (s : List Char) (h : CR ∉ s) : CR ∉ dropBom s := by
+  cases s with
+  | nil => simp [dropBom]
+  | cons c r =>
+    simp only [dropBom]
+    split
+    · intro hm; exact h (List.mem_cons_of_mem _ hm)
+    · exact h
+
+theorem C18_commentColumn_newline_invariant (k : NL) (pre : List Char) (h : CR ∉ pre) :
+    commentColumn false (substNewlines k pre) = commentColumn false pre := by
+  simp only [commentColumn, Bool.false_eq_true, ↓reduceIte]
+  rw [dropBom_subst, normNL_subst k _ (not_mem_dropBom pre h)]
+
+theorem C18_commentColumn_bom (pre : List Char) (h : pre.head? ≠ some (Char.ofNat 0xFEFF)) :
+    commentColumn false (Char.ofNat 0xFEFF :: pre) = commentColumn false pre := by
+  simp only [commentColumn, Bool.false_eq_true, ↓reduceIte]
+  cases pre with
+  | nil => simp [dropBom]
+  | cons c r =>
+    have : ¬ c = Char.ofNat 0xFEFF := by simpa using h
+    simp [dropBom, this]
+
+theorem C18_asFound_commentColumn_depends_on_newline_style :
+    commentColumn true (substNewlines .cr ['a', LF, ' ', ' ']) = 4 ∧ commentColumn true ['a', LF, ' ', ' '] = 2 ∧
+    commentColumn true (Char.ofNat 0xFEFF :: [' ', ' ']) = 3 ∧ commentColumn true [' ', ' '] = 2 := by decide
+
+example : commentColumn false (substNewlines .cr ['a', LF, ' ', ' ']) = 2 := by decide
+
 /-! ### normalising while scanning (`parse_identifier(normalize)`, base.rs:135) -/
 
 theorem identNorm_reverse (l : List Char) : identNorm l.reverse = (identNorm l).reverse := by
